@@ -117,12 +117,12 @@ Definition run (v : val) : val :=
     let st := a_init (dbool fx) (d_first first) (d_zopt cl) (dlist d_event events) in
     let tr := arun (dbool fx) aops st in
     L [L [I (pos st); vbool (a_eof st)]; vlist v_aobs tr;
-       vlist vN (a_oracle (d_first first) (d_zopt cl) (dlist d_event events) (pos st)
+       vlist vN (a_oracle (d_first first) (d_zopt cl) (dlist d_event events) (pos st) (a_eof st)
                           (a_observes aops tr))]
   | L [I 2; cl; data; obs] =>
     vlist vN (w_oracle (dZ cl) (dstr data) (dlist d_wobs obs))
-  | L [I 3; first; cl; events; tell0; obs] =>
-    vlist vN (a_oracle (d_first first) (d_zopt cl) (dlist d_event events) (dZ tell0)
+  | L [I 3; first; cl; events; tell0; eof0; obs] =>
+    vlist vN (a_oracle (d_first first) (d_zopt cl) (dlist d_event events) (dZ tell0) (dbool eof0)
                        (dlist d_aobs obs))
   | _ => L [I (-1)]
   end.
